@@ -11,6 +11,7 @@ pub mod c09;
 pub mod c10;
 pub mod c11;
 pub mod c18;
+pub mod c19;
 pub mod c12;
 pub mod c13;
 pub mod c14;
@@ -33,6 +34,7 @@ pub fn by_id(id: &str) -> Option<&'static dyn Prop> {
         "C10" => &c10::C10,
         "C11" => &c11::C11,
         "C18" => &c18::C18,
+        "C19" => &c19::C19,
         "C12" => &c12::C12,
         "C13" => &c13::C13,
         "C14" => &c14::C14,
@@ -45,4 +47,5 @@ pub fn by_id(id: &str) -> Option<&'static dyn Prop> {
 pub fn selftest() {
     common::selftest();
     crate::big::selftest();
+    c19::selftest();
 }
